@@ -28,6 +28,7 @@ Definition ostep (s : st) (o : obs) (s1 : st) : Prop :=
   match o with
   | OSent m => exists x, sreach s x /\ istep [VSend m] x s1
   | OLoaded c => exists x, sreach s x /\ istep [VLoad c] x s1
+  | OSettle => sreach s s1
   | OQuiet held tbl =>
       sreach s s1 /\ quiescent gp gh s1 = true /\ option_eqb gkind_eqb (gate_of gp gh s1) held = true /\
       option_eqb rstate_eqb (tbl_of s1) tbl = true
@@ -81,7 +82,7 @@ Proof. intro H. apply filter_In in H as [Hx Hf]. exists y. split; [exact Hx|]. s
 
 Lemma advance_sound ss o s1 : In s1 (advance gp gh ss o) -> exists s, In s ss /\ ostep s o s1.
 Proof.
-  destruct o as [l|k c|[| |]|[| |] e|m|c|held tbl]; simpl; intro H.
+  destruct o as [l|k c|[| |]|[| |] e|m|c|held tbl|]; simpl; intro H.
   - destruct (is_env l) eqn:E; [|contradiction]. unfold step_states in *. apply flat_map_single in H as (x & Hx & H).
     exists x. split; [exact Hx|]. exact H.
   - apply flat_map_single in H as (x & Hx & H). exists x. split; [exact Hx|]. exact H.
@@ -97,6 +98,7 @@ Proof.
     exists s. split; [exact Hs|]. exists x. split; [exact Rx | apply succs_istep; exact H].
   - apply filter_In in H as [Hx Hf]. apply close_sound in Hx as (s & Hs & Rx).
     exists s. split; [exact Hs|]. apply andb_true_iff in Hf as [Hf H3]. apply andb_true_iff in Hf as [H1 H2]. repeat split; auto.
+  - apply close_sound in H as (s & Hs & Rx). exists s. split; [exact Hs | exact Rx].
 Qed.
 
 Theorem accepts_sound : forall tr ss s2,
